@@ -90,6 +90,18 @@ CHECKS['C01'] = dict(
          'layouts are trace-validated with wrappers on _get_subitems and _get_part.',
     design_ref='4 (C01)', technique='TLA+/TLC model checking + exhaustive spec-to-code replay + trace validation',
     note=_NOTE + ' mtscomp trusted for .cbin; list indices are not issued to .cbin readers (excluded by the statement).')
+CHECKS['C02'] = dict(
+    text='ReaderOps.tla: derivation heap with explicit list objects (so that aliasing is expressible). '
+         'TLC proves LazyEqEager on a term algebra, Isolation (no action changes an existing reader\'s op '
+         'list) and ChildOps for all operator programs to depth 2 (3 thorough) over 14 operators x 5 '
+         'scalars + column selections and for all derivation trees with every choice of parent; a '
+         'negative-control model in which the clone shares the parent\'s list must violate Isolation. '
+         'Every behaviour is replayed on real readers (array/flat multi-file/npy/cbin, several sample '
+         'types): after every derivation every live reader is re-indexed and compared (values and '
+         'dtype) with eager NumPy, its _ops with the spec state, and on int64 with the spec\'s EvalInt; '
+         'TLC-simulated deep forests and random forests (trace-validated per derivation) extend depth.',
+    design_ref='4 (C02)', technique='TLA+/TLC model checking + behaviour replay (BFS + simulation) + trace validation',
+    note=_NOTE + ' The eager side is evaluated by NumPy, as the statement defines it.')
 
 NOT_APPLICABLE = {}
 for e in ENGINES:
